@@ -79,6 +79,20 @@ func main() {
 			}
 		}
 	}
+	// a logger that takes its time, a slow consumer with messages waiting in the channel's buffer, Close / cancel meanwhile
+	for i := 0; i < 16; i++ {
+		sc := gc.Scenario{Buf: 2, Persistent: i%4 == 3, Seed: rng.Next(), SlowLogUs: 600 + 100*(i%5), CloseDuring: i%2 == 0, CloseAfterUs: 1000 + int(rng.Next()%5000),
+			LateOps: true,
+			Subs: []gc.SubSpec{{Topic: 0, Phase: 0, CancelAtRecv: -1, NestedTopic: -1, RecvDelayUs: 2000 + int(rng.Next()%2000)}},
+			Pubs: []gc.PubSpec{{Topic: 0, Calls: 12, Batch: 1}}}
+		if i%2 == 1 {
+			sc.Subs[0].CancelAtRecv = 1 // the consumer cancels its own subscription while two more messages wait in the buffer
+		}
+		if !emit(sc) {
+			return
+		}
+		out.Count("slow_logger_buffered_close")
+	}
 	cfgs := []struct{ p, b bool }{{false, false}, {true, false}, {false, true}}
 	if a.Thorough() {
 		cfgs = append(cfgs, struct{ p, b bool }{true, true})
